@@ -14,7 +14,7 @@ import (
 
 type vsymStored struct {
 	ack     vsymAck
-	region  int  // 0,1 = segment number; 2 = write buffer
+	region  int  // 0,1 = segment number; 2 = write buffer (or the batches of an in-flight flush); 3 = appended during that flush
 	pos     int  // byte position of the batch inside its region's body
 	indexed bool // the batch has its own sparse-index entry
 }
@@ -23,7 +23,7 @@ type vsymReadWorld struct {
 	l        *PartitionLog
 	s3       *vsymS3
 	stored   []vsymStored
-	body     [3][]byte // concatenated acknowledged batch bytes per region
+	body     [4][]byte // concatenated acknowledged batch bytes per region (2 = buffer / batches being flushed, 3 = appended during that flush)
 	interval int32
 	next     int64
 }
@@ -94,15 +94,58 @@ func vsymBuildReadWorld(interval int32, cacheOn, hole, restart bool) *vsymReadWo
 	return w
 }
 
+// vsymCheckReadMidFlush: the buffered batch is being flushed (its upload is in flight), another
+// produce is appended meanwhile, and the Read happens at that moment: the batch being uploaded is
+// still part of the log and precedes the newly buffered one.
+func vsymCheckReadMidFlush(w *vsymReadWorld, prop int) {
+	ctx := context.Background()
+	done := false
+	var (
+		ro   int64
+		rmax int32
+		rgot []byte
+		rerr error
+	)
+	w.s3.onCall = func(op, key string) {
+		if op != "upload-segment" || done {
+			return
+		}
+		done = true
+		raw := vsymBatch(2, vsym_Bytes("payload", 2))
+		b, _ := NewRecordBatchFromBytes(raw)
+		res, err := w.l.AppendBatch(ctx, b)
+		vsym_Assert(err == nil, "build/append-during-flush")
+		w.stored = append(w.stored, vsymStored{ack: vsymAck{res.BaseOffset, res.LastOffset, append([]byte(nil), b.Bytes...)}, region: 3, pos: 0, indexed: true})
+		w.body[3] = append(w.body[3], b.Bytes...)
+		w.next = w.l.nextOffset
+		vsym_Reach("mid-flush")
+		// (the read happens here, inside the upload; it is judged after the flush returns so
+		// that a native run does not assert inside the log's own goroutine)
+		ro, rmax, rgot, rerr = vsymDoRead(w)
+	}
+	vsym_Assert(w.l.Flush(ctx) == nil, "build/flush")
+	vsym_Assert(done, "build/flush-uploaded")
+	vsymVerifyRead(w, prop, ro, rmax, rgot, rerr)
+}
+
 // vsymCheckRead performs one Read and checks it. prop selects the assertions: 3 = C03
 // (exact bytes, contiguous run from a batch boundary at or before the batch of o, nothing
 // foreign), 4 = C04 (the reply contains the start of the batch holding o or of the next one).
 func vsymCheckRead(w *vsymReadWorld, prop int) {
+	o, maxBytes, got, err := vsymDoRead(w)
+	vsymVerifyRead(w, prop, o, maxBytes, got, err)
+}
+
+func vsymDoRead(w *vsymReadWorld) (int64, int32, []byte, error) {
 	o := vsym_Int64("offset")
 	vsym_Assume(o >= 0 && o <= w.next+1)
 	maxBytes := vsym_Int32("maxBytes")
 	vsym_Assume(maxBytes >= 1 && maxBytes <= 400)
 	got, err := w.l.Read(context.Background(), o, maxBytes)
+	return o, maxBytes, got, err
+}
+
+func vsymVerifyRead(w *vsymReadWorld, prop int, o int64, maxBytes int32, got []byte, err error) {
 	// the batch holding o, or the first one after it
 	target := -1
 	for i := len(w.stored) - 1; i >= 0; i-- {
